@@ -160,6 +160,10 @@ def implRows : List Row := [
   ("object.byteCache", false, "object.<pkg-init>", true, [], true),
   ("object.byteCache", false, "<readers>", false, [], false),
   ("object.byteCache", false, "object.init", true, [], true),
+  ("object.contextInterface", false, "object.<pkg-init>", true, [], true),
+  ("object.contextInterface", false, "<readers>", false, [], false),
+  ("object.errorInterface", false, "object.<pkg-init>", true, [], true),
+  ("object.errorInterface", false, "<readers>", false, [], false),
   ("object.goTypeRegistry", false, "object.<pkg-init>", true, [], true),
   ("object.goTypeRegistry", false, "object.newGoType", false, [], false),
   ("object.goTypeRegistry", false, "object.newGoType", true, [], false),
@@ -335,11 +339,18 @@ def aloneResult (code : List Stmt) (n : Nat) : List Nat :=
   (runAlone { code := code, convCache := [], modCache := [] }
     (load { code := code, convCache := [], modCache := [] } n) code.length).2.globals
 
-/-- reviewed list of package-level variables that are mutable in effect (name, kind) -/
+/-- reviewed list of package-level variables that are mutable in effect (name, kind): assigned
+    outside initialisation, or of map/slice/pointer/chan type, or a non-`error` interface value, or a
+    struct/array stored in the variable itself that carries references or is of a `sync` type
+    (`sync.Pool`, `sync.Map`, `bytes.Buffer`, …), or whose storage is written / escapes (`v.f = …`,
+    `v[i] = …`, `&v`, `v[:]`, a pointer-receiver method call).  A scratch buffer, pool or cache
+    added at package level therefore shows up here and breaks the tie until it is reviewed.
+    `object.contextInterface` / `object.errorInterface` are `reflect.Type` values that are only read. -/
 def reviewedVars : List (String × String) := [
   ("builtins.codecs", "state"), ("builtins.mutex", "lock"), ("errz.typeErrorsAreFatal", "state"),
   ("importer.defaultExtensions", "state"), ("object.False", "state"), ("object.Nil", "state"),
-  ("object.True", "state"), ("object.byteCache", "state"), ("object.goTypeMutex", "lock"),
+  ("object.True", "state"), ("object.byteCache", "state"), ("object.contextInterface", "state"),
+  ("object.errorInterface", "state"), ("object.goTypeMutex", "lock"),
   ("object.goTypeRegistry", "state"), ("object.intCache", "state"), ("object.kindConverters", "state"),
   ("object.typeConverters", "state"), ("op.infos", "state"), ("os.globalScriptargs", "state")]
 
